@@ -83,5 +83,14 @@ CLAIMED = {
         'and the AES key/iv are key[0:16]+hash[16:32] / hash[0:4]+key[20:32].',
    note='NOT covered (no solver encoding within reach, DESIGN.md section 7): "a signature verifies under the matching key and fails otherwise" and the mnemonic '
         'clauses - libsodium Ed25519 and PBKDF2-HMAC-SHA512; they are exercised on fixed vectors as stub-contract validation only. Trusted: the stub contracts.'),
+ 'C13': dict(
+   text='Bounded symbolic execution of the real Address text code (text as typed ropes, base64 as a stub with decode(encode(x))=x): for the raw form '
+        'and the 8 friendly variants and ALL workchains -128..127 and 32-byte account ids, parse(render(a)) equals a with the same flags and equal '
+        'addresses hash equally; for all 48 character positions x 8 variants and every non-zero 6-bit change of the character the address is rejected. '
+        'crc16 inside the address code is an uninterpreted function; the two facts about it that the rejection needs are discharged on the real crc16 '
+        'loop body sliced from the current source (technique B: a changed 6-bit group changes the register, differences persist; all lengths).',
+   note='Trusted: z3; the base64/text rope contract; lemma composition (if crc16 loses the fold shape the corruption harness is not run and evidence says so). '
+        'Non-canonical base64 text and int() liberalities in the raw form are outside the claim.',
+   technique='bounded symbolic execution of the real source with z3 (SX) + inductive step lemmas on the AST-sliced crc16 loop body; replay on the untouched library'),
 }
 NOT_APPLICABLE = {}
